@@ -16,6 +16,8 @@ def gen_and_validate(jobs, tag, phys=False):
         base = os.path.join(d, "%s-%s" % (profile, seed))
         args = ["gen-seq", "--profile", profile, "--count", count, "--seed", seed,
                 "--out", base + ".ndjson", "--programs", base + ".prog.json"]
+        if profile == "quietpair":
+            args.append("--pairs")
         if phys:
             args.append("--phys")
         st = harness(args)
@@ -28,10 +30,12 @@ def gen_and_validate(jobs, tag, phys=False):
     return parallel(one, jobs, workers=12)
 
 
-def run_programs(prog_file, tag, phys=False, spec="MemcTrace"):
+def run_programs(prog_file, tag, phys=False, spec="MemcTrace", pairs=False):
     d = workdir("seq-" + tag)
     out = os.path.join(d, "trace.ndjson")
     args = ["run-seq", "--programs", prog_file, "--out", out]
+    if pairs:
+        args.append("--pairs")
     if phys:
         args.append("--phys")
     st = harness(args)
@@ -54,6 +58,8 @@ def violation_context(res, v, before=0):
     if res.get("programs") and os.path.exists(res["programs"]):
         progs = [l for l in open(res["programs"]) if l.strip()]
         hno = evs[start].get("h", 1)
+        if evs[line - 1].get("e") == "final":
+            hno = evs[line - 1].get("pair", 1)          # paired runs: two histories per program
         if 1 <= hno <= len(progs):
             prog = json.loads(progs[hno - 1])
     return {"event": evs[line - 1], "history_events": hist, "program": prog}
